@@ -1,0 +1,60 @@
+//go:build verif
+
+package format
+
+import (
+	"fmt"
+
+	"github.com/please-build/buildtools/build"
+)
+
+// FormatFileForVerif runs the real per-file formatting step of `plz fmt -w` on the file (rewrite in place, quiet).
+func FormatFileForVerif(filename string) (changed bool, err error) {
+	defer func() {
+		if r := recover(); r != nil {
+			err = fmt.Errorf("panic: %v", r)
+		}
+	}()
+	return format(filename, true, true)
+}
+
+// SimplifyForVerif parses data as a BUILD file, runs please's own `simplify` step on it and describes the
+// resulting top-level statements: "sub:<labels joined by ,>" for a subinclude call whose arguments are all
+// string literals, "other:<n>" (n = index among the non-mergeable statements of the *input*) for anything else.
+func SimplifyForVerif(data []byte) (before, after []string, err error) {
+	defer func() {
+		if r := recover(); r != nil {
+			err = fmt.Errorf("panic: %v", r)
+		}
+	}()
+	f, err := build.ParseBuild("BUILD", data)
+	if err != nil {
+		return nil, nil, err
+	}
+	ids := map[build.Expr]int{}
+	describe := func(stmts []build.Expr) []string {
+		out := make([]string, len(stmts))
+		for i, st := range stmts {
+			if call := subinclude(st); call != nil {
+				s := "sub:"
+				for j, a := range call.List {
+					if j > 0 {
+						s += ","
+					}
+					s += a.(*build.StringExpr).Value
+				}
+				out[i] = s
+			} else {
+				if _, ok := ids[st]; !ok {
+					ids[st] = len(ids)
+				}
+				out[i] = fmt.Sprintf("other:%d", ids[st])
+			}
+		}
+		return out
+	}
+	before = describe(f.Stmt)
+	simplify(f)
+	after = describe(f.Stmt)
+	return before, after, nil
+}
